@@ -475,7 +475,63 @@ def r04_8(chk):
     chk.floor("R04.8", 8, "hand-over sites in the two Sequence implementations")
 
 
+def _live_strand_tests(fn):
+    """tests that can be true for a reversed receiver: a name bound from parent_coordinates()'s strand (an int, -1 / 1)
+    compared with an int, or an is_reversed / step < 0 test.  A comparison of that int with a string is dead."""
+    from ..defuse import assignments
+
+    strand_names = set()
+    for tg, v, _ in assignments(fn):
+        if any(isinstance(c, ast.Call) and isinstance(c.func, ast.Attribute) and c.func.attr == "parent_coordinates" for c in ast.walk(v)):
+            for t in tg:
+                for el in (t.elts if isinstance(t, (ast.Tuple, ast.List)) else [t]):
+                    el = el.value if isinstance(el, ast.Starred) else el
+                    if isinstance(el, ast.Name) and el.id not in ("_",):
+                        strand_names.add(el.id)
+    live = []
+    for c in ast.walk(fn):
+        if isinstance(c, ast.Compare) and isinstance(c.left, ast.Name) and c.left.id in strand_names:
+            r = c.comparators[0]
+            is_int = (isinstance(r, ast.Constant) and isinstance(r.value, int) and not isinstance(r.value, bool)) or (isinstance(r, ast.UnaryOp) and isinstance(r.operand, ast.Constant) and isinstance(r.operand.value, int))
+            if is_int:
+                live.append(c)
+        if isinstance(c, ast.Attribute) and c.attr == "is_reversed":
+            live.append(c)
+    return live
+
+
+def r04_9(chk):
+    chk.rule("R04.9", "a copy keeps its annotations whatever the strand of the receiver: in the deepcopy methods of the collection / aligned classes the annotation db of the copy is None only at the caller's request (exclude_annotations) -- no test that is true for a reverse-complemented receiver (strand == -1, is_reversed) guards a `... = None` of the db; the comparisons of the int strand with '-' that are in the code today are dead")
+    m = chk.repo.module("core/alignment.py")
+    n = 0
+    for q in ("_SequenceCollectionBase.deepcopy", "Aligned.deepcopy"):
+        fn = m.func(q)
+        n += 1
+        live = _live_strand_tests(fn)
+        # names carrying a live strand test
+        from ..defuse import assignments
+
+        flags = {t.id for tg, v, _ in assignments(fn) if any(x in live for x in ast.walk(v)) for t in tg if isinstance(t, ast.Name)}
+        bad = []
+        for st in walk_no_nested(fn):
+            # db = None if <guard> else ...
+            if isinstance(st, ast.Assign) and isinstance(st.value, ast.IfExp) and isinstance(st.value.body, ast.Constant) and st.value.body.value is None and ("db" in norm(st.targets[0]) or "annotation" in norm(st.targets[0])):
+                t = st.value.test
+                if any(x in live for x in ast.walk(t)) or any(isinstance(x, ast.Name) and x.id in flags for x in ast.walk(t)):
+                    bad.append(st)
+            # if <guard>: x.annotation_db = None
+            if isinstance(st, ast.If) and any(isinstance(b, ast.Assign) and isinstance(b.value, ast.Constant) and b.value.value is None and "annotation_db" in norm(b.targets[0]) for b in st.body):
+                if any(x in live for x in ast.walk(st.test)) or any(isinstance(x, ast.Name) and x.id in flags for x in ast.walk(st.test)):
+                    bad.append(st)
+        chk.decide(not bad, "R04.9", key(m, q, "annotations kept whatever the strand"), m.loc(bad[0] if bad else fn), "the db is dropped only on request", f"`{norm(bad[0])[:90] if bad else ''}` drops the annotation db when the receiver is reverse complemented: rc() followed by deepcopy(sliced=True) returns an object with no features, while the object it was copied from still answers")
+    probe = ast.parse("def deepcopy(self, sliced=True):\n    *_, strand = self.seqs[0].parent_coordinates()\n    reversed = strand == -1\n    db = None if reversed and sliced else deepcopy(self.annotation_db)\n").body[0]
+    if not _live_strand_tests(probe):
+        raise AnalysisError("R04.9 self-probe failed")
+    chk.floor("R04.9", 2, "two deepcopy implementations")
+
+
 def run(chk):
+    r04_9(chk)
     r04_8(chk)
     r04_7(chk)
     r04_1(chk)
